@@ -712,6 +712,18 @@ def run(tier, seed):
             if check_block(G, blk, tb, inp) and blk.bar_pitches() != [[pitches]]:
                 R.fail(G, CR, "second rendering: notes %r read back as %r:\n%s" % (pitches, blk.bar_pitches(), txt), inp)
 
+    def notes_state(bars):
+        """every attribute of every note of every entry (a rendering is a read: it leaves all of this alone)"""
+        return [None if e[2] is None else [sorted((k, repr(v)) for k, v in vars(n).items()) for n in e[2]]
+                for b in bars for e in b.bar]
+
+    def unchanged(G, bars, before, inp):
+        after = notes_state(bars)
+        if after != before:
+            diff = [(x, y) for x, y in zip(before, after) if x != y][:2]
+            R.fail(G, CR, "rendering changed the notes it was given (a later rendering on another tuning reads them): %r"
+                   % (diff,), inp)
+
     # --- bars
     from mingus.core import value as core_value
     durations = [1, 2, 4, 4, 4, 8, 8, 8, 16, 16, 32, core_value.dots(4), core_value.dots(8), core_value.dots(2),
@@ -845,7 +857,9 @@ def run(tier, seed):
                     return "\n".join(res)
                 return None if not collapse else res
 
+            st0 = notes_state([b])
             txt = render(G, t, inp, bar_call, bad is not None)
+            unchanged(G, [b], st0, inp)
             if txt is None:
                 continue
             systems = tabreader.read(txt)
@@ -936,8 +950,10 @@ def run(tier, seed):
                 kw["maxwidth"] = page
             if how in ("argument", "both"):
                 kw["tuning"] = tt
+            st0 = notes_state(tr.bars)
             try:
                 txt = tab.from_Track(tr, **kw)
+                unchanged(G, tr.bars, st0, inp)
             except TypeError as e:
                 R.fail(G, CR, "from_Track(maxwidth=%r) raised TypeError: %s" % (page, e), inp,
                        finding="tab-track-float-width" if pg > 60 else None)
@@ -1005,8 +1021,15 @@ def run(tier, seed):
         anyempty = any(m[3] for m in models)
         inp = ([(tname(tt), [repr(b) for b in tr.bars]) for tr, tt in zip(c.tracks, tts)], page)
         R.case(G, (j, page))
+        st0 = notes_state([b for tr in c.tracks for b in tr.bars])
         try:
             txt = tab.from_Composition(c) if page is None else tab.from_Composition(c, page)
+            unchanged(G, [b for tr in c.tracks for b in tr.bars], st0, inp)
+            # asked again, the same composition gives the same tablature (nothing of the first rendering is kept)
+            again = tab.from_Composition(c) if page is None else tab.from_Composition(c, page)
+            if again != txt:
+                R.fail(G, CL, "the same composition rendered a second time gives another tablature (%d lines, then %d)"
+                       % (len(str(txt).splitlines()), len(str(again).splitlines())), inp)
         except TypeError as e:
             R.fail(G, CR, "from_Composition(width=%r) raised TypeError: %s" % (page, e), inp, finding="tab-composition-float-bars")
             continue
